@@ -7,6 +7,24 @@ EVERY = {"quick": 300, "thorough": 60}
 NSIM = {"quick": 15, "thorough": 300}   # each walk yields one behaviour per successor of its last state (~45)
 
 
+def wallet_pass(prop, tier, seed, scratch, nsim):
+    """Replay random walks of spec/Spend.tla on a real wallet for a property that owns one observation class
+    of the driver (C01: balance / spendable outputs, C13: transaction listing). Returns the driver report."""
+    drv = vlib.build_driver(scratch, "replay-wallet")
+    simtr = scratch.path("wl-sim.ndjson")
+    sim = vlib.run_tlc(scratch, "Spend.tla", "MC_Spend_sim.cfg", simulate=nsim, depth=29, seed=seed,
+                       out_traces=simtr, tag="wlsim", timeout=1800)
+    if sim["errors"]:
+        raise vlib.Broken("Spend simulation failed: %s" % sim["errors"][:3])
+    report = scratch.path("wl-report.json")
+    vlib.run_driver(drv, ["-in", simtr, "-out", report, "-spec", "spend", "-prop", prop, "-seed", seed,
+                          "-workers", vlib.NCPU], timeout=7200)
+    rep = vlib.load_report(report)
+    if rep["traces"] != sim["ntraces"]:
+        raise vlib.Broken("wallet-level pass replayed %d of %d behaviours" % (rep["traces"], sim["ntraces"]))
+    return rep
+
+
 def run(prop, tier, seed, scratch, replay=None):
     res = vlib.Result(prop, tier, seed, "model_checking")
     drv = vlib.build_driver(scratch, "replay-wallet")
